@@ -194,6 +194,8 @@ def run(ctx):
                         "the conditioning bound (Gram determinant >= 0.02) is not turned into an error bound"]
     ctx.assumptions += ["numpy's cos, sin, sqrt, arccos, dot, transpose, linalg.inv compute what their names say",
                         "a, b, c > 0, angles in (0, 180) deg (so sin > 0), Gram determinant > 0 (so W > 0)"]
+    from xfabsa import numeric as _N2
+    _N2.hazard_rule(ctx, 'C01')
     return ("E3 normal-form equality of every entry of form_a_mat, form_b_mat, cell_volume, cell_invert and sintl^2 "
             "with the unique closed forms (Cholesky factor of G resp. tau^2 G^-1; Int. Tab. B reciprocal cell), in "
             "both modules; triangular zeros; positive diagonal in the sign domain; inverse maps read the metric "
